@@ -47,6 +47,19 @@ Theorem savepoint_folds : forall s ops p,
 Proof. exact savepoint_folds_lemma. Qed.
 Print Assumptions savepoint_folds.
 
+(* At the job (jobs/job.go HandleCreateSavepoint): a request that folds broadcasts NO StartCheckpoint to the source
+   runners and moves no counter; a request with nothing pending broadcasts exactly one, for the new id - so every
+   checkpoint id gets exactly one StartCheckpoint round (the tick's, or the savepoint's). *)
+Theorem savepoint_starts_nothing_when_folding : forall s ops,
+  match st_pending s with
+  | Some p => p_sp p = false ->
+      exists s', job_create_savepoint s ops = (s', RId (p_id p) false, []) /\ st_counter s' = st_counter s
+  | None =>
+      exists s', job_create_savepoint s ops = (s', RId (st_counter s + 1) true, [st_counter s + 1])
+  end.
+Proof. exact job_savepoint_starts_lemma. Qed.
+Print Assumptions savepoint_starts_nothing_when_folding.
+
 (* non-vacuity: the hypotheses hold of a two-checkpoint operator file, and the conclusion is computed *)
 Example savepoint_instance : reads_ok d25_fs (0, 5) /\
   exists fs1, sp_create true d25_fs 5 [(0, 5)] = Some fs1 /\
